@@ -47,14 +47,15 @@ static AWT *rw_anchor(AWT *c) {
   if (k < rw_n) {
     if (cur == rw_trk) rwm.tstate = RW_VISITING;                    /* its handle / function are those the harness gave it (invariant) */
     else { rw_anon->_handle_addr = &rw_tok_anon; rw_anon->_resume_fn = (nondet_unsigned() & 1) ? rw_anon_cb : 0; }     /* a fresh arbitrary waiter */
-    cur->_next = RW_NODE(k + 1);
+    if (cur == rw_trk) __CPROVER_assert(cur->_next == RW_NODE(k + 1), "C02: the link of a waiter is intact when the walk reaches it (nobody wrote it ahead of the cursor)");
+    else cur->_next = RW_NODE(k + 1);                              /* anonymous waiters: materialised when reached (summary object) */
     rwm.pos = k + 1; }
   return cur; }
 #define CV_LOOP_aw_resume_chain_lk_0 \
   __CPROVER_assigns(CV_LOOP_LOCALS_aw_resume_chain_lk_0, __CPROVER_object_whole(rw_trk), __CPROVER_object_whole(rw_anon), __CPROVER_object_whole(&rwm), cv_exc_pending) \
   __CPROVER_loop_invariant(cv_exc_pending == 0 && rwm.pos <= rw_n && chain_addr == RW_NODE(rwm.pos) && rwm.resumes == rwm.pos) \
   __CPROVER_loop_invariant((rw_tpos < rw_n && rwm.pos > rw_tpos) ? (rwm.tstate == RW_RESUMED && rwm.trk_cb_calls == (rw_trk_is_cb ? 1 : 0) && rwm.trk_merged == (rw_trk_is_cb ? 0 : 1) && RW_TRK_UNTOUCHED_SINCE_RELEASE) \
-                                                                  : (rwm.tstate == RW_NOT_VISITED && rwm.trk_cb_calls == 0 && rwm.trk_merged == 0 && RW_TRK_FRAME)) \
+                                                                  : (rwm.tstate == RW_NOT_VISITED && rwm.trk_cb_calls == 0 && rwm.trk_merged == 0 && RW_TRK_FRAME && (rw_tpos >= rw_n || rw_trk->_next == RW_NODE(rw_tpos + 1)))) \
   __CPROVER_decreases(rw_n - rwm.pos) \
   if ((chain_addr = rw_anchor(chain_addr)), 1)
 /* release of the tracked waiter: exactly once, while it is the cursor; then its memory may be anything */
@@ -108,6 +109,8 @@ void h_rc_walk(void) {
   __CPROVER_assume(rw_n < (1u << 30));                       /* rw_tpos >= rw_n: no tracked waiter in this chain (covers the empty chain) */
   rwm.pos = 0; rwm.tstate = RW_NOT_VISITED; rwm.trk_cb_calls = 0; rwm.trk_merged = 0; rwm.resumes = 0;
   rw_trk->_handle_addr = rw_trk_is_cb ? &rw_tok_other : &rw_tok_trk; rw_trk->_resume_fn = rw_trk_is_cb ? rw_trk_cb : 0;
+  rw_trk->_next = RW_NODE(rw_tpos + 1);     /* audit F1: the tracked waiter's link exists AHEAD of time (statically known) and the invariant carries it while the waiter
+                                             * is not yet visited - a write to the link of a waiter ahead of the cursor, however it is made, breaks the invariant */
   SP ret;
   aw_resume_chain_lk(&ret, RW_NODE(0));
   __CPROVER_assert(cv_exc_pending == 0, "no exception");
